@@ -1,12 +1,48 @@
 /- Line-protocol driver for the C07 model: the forest model and glue of C01 (clone is one of its
 operations). -/
 import Driver.SymGlue
+import PgModel.CloneVal
 open Pg Pg.Sym SymGlue
+
+namespace ValJ
+open Pg.C07.Val
+
+mutual
+  /-- structure JSON → value, identities assigned in pre-order from `next`. -/
+  partial def label (next : Nat) : J → Option (V × Nat)
+    | .arr [.str "imm"] => some (.imm 0, next)
+    | .arr [.str "opq"] => some (.opq next, next + 1)
+    | .arr [.str "sym", .arr cs] => do let r ← labelAll (next + 1) cs; pure (.sym next r.1, r.2)
+    | .arr [.str "tup", .arr cs] => do let r ← labelAll next cs; pure (.tup r.1, r.2)
+    | .arr [.str "plist", .arr cs] => do let r ← labelAll (next + 1) cs; pure (.plist next r.1, r.2)
+    | .arr [.str "pdict", .arr cs] => do let r ← labelAll (next + 1) cs; pure (.pdict next r.1, r.2)
+    | _ => none
+  partial def labelAll (next : Nat) : List J → Option (List V × Nat)
+    | [] => some ([], next)
+    | c :: cs => do
+      let r ← label next c
+      let rs ← labelAll r.2 cs
+      pure (r.1 :: rs.1, rs.2)
+end
+
+def run (deep : Bool) (j : J) : J :=
+  match label 0 j with
+  | none => .obj [("bad_request", .str "clonev")]
+  | some (v, next) =>
+    let c := (cloneV deep next v).1
+    .obj [("shared", .arr ((ids c).map fun i => .bool ((ids v).contains i))),
+          ("objects", .int (ids c).length)]
+
+end ValJ
 
 def handle (j : J) : J :=
   match j.getStr? "op" with
   | some "history" =>
     .obj [("steps", .arr (runHistory (cfgOf j) ((j.getArr? "ops").getD [])))]
+  | some "clonev" =>
+    match j.getBool? "deep", j.get? "v" with
+    | some deep, some v => ValJ.run deep v
+    | _, _ => .obj [("bad_request", .str "clonev")]
   | _ => .obj [("bad_request", .str "op")]
 
 def main : IO Unit := driverLoop handle
